@@ -149,7 +149,9 @@ def node_start_value(res: Result, fails: list):
     """Node.__init__ seeds its end-to-end generator with the start time."""
     import vnode
     from diameter.node import Node
-    for now in (1_700_000_000, 1_700_000_000 + 4095, 2**31 + 17):
+    base = (1_700_000_000 // 4096) * 4096
+    for now in (1_700_000_000, 1_700_000_000 + 4095, 2**31 + 17, base, base + 4096, base - 1, base + 1, 4096 * 400000,
+                2**31, 2**32 - 4096):
         env = vnode.Env()
         env.now = now
         env.install()
